@@ -121,7 +121,11 @@ func (g *g20) emitMap(b *strings.Builder, ind string, from int) {
 	for i := from; i < len(g.keys); i++ {
 		v := g.vals[i]
 		emitComment20(b, ind, v.head)
-		b.WriteString(ind + g.keys[i] + ":")
+		if strings.HasPrefix(g.keys[i], "? ") { // complex key
+			b.WriteString(ind + g.keys[i] + "\n" + ind + ":")
+		} else {
+			b.WriteString(ind + g.keys[i] + ":")
+		}
 		v.emitValue(b, ind)
 		if v.foot != "" {
 			emitComment20(b, ind, v.foot)
@@ -142,7 +146,11 @@ func (g *g20) emitSeq(b *strings.Builder, ind string) {
 			if e.anchor != "" {
 				an = " &" + e.anchor + "\n" + ind + " "
 			}
-			b.WriteString(an + " " + e.keys[0] + ":")
+			if strings.HasPrefix(e.keys[0], "? ") {
+				b.WriteString(an + " " + e.keys[0] + "\n" + ind + "  :")
+			} else {
+				b.WriteString(an + " " + e.keys[0] + ":")
+			}
 			e.vals[0].emitValue(b, ind+"  ")
 			if e.vals[0].foot != "" {
 				emitComment20(b, ind+"  ", e.vals[0].foot)
@@ -202,6 +210,7 @@ type gen20 struct {
 	comments int // percent chance of a comment at each site
 	anchors  []string
 	nAnchor  int
+	complexKeys bool // this document may use complex ("? ") keys
 }
 
 func (g *gen20) scalar() *g20 {
@@ -240,6 +249,9 @@ func (g *gen20) decorate(n *g20) *g20 {
 }
 
 func (g *gen20) key() string {
+	if g.complexKeys && g.r.Chance(4) {
+		return g.r.Pick([]string{"? [cx, cy]", "? {zk: 1, ak: 2}"})
+	}
 	if g.r.Chance(55) {
 		return g.r.Pick(c20Known)
 	}
@@ -273,7 +285,8 @@ func (g *gen20) mapping(depth, n int) *g20 {
 	for i := 0; i < n; i++ {
 		k := g.key()
 		if n > 12 && used[k] {
-			k = fmt.Sprintf("%s%d", strings.Trim(k, "\"'~ ."), i)
+			k = fmt.Sprintf("%s%d", strings.Trim(k, "\"'~ .?[]{}"), i)
+			k = strings.NewReplacer("[", "", "]", "", "{", "", "}", "", ",", "", ":", "", " ", "").Replace(k)
 		}
 		if used[k] && !r.Chance(6) { // rarely a duplicate key
 			continue
@@ -290,7 +303,7 @@ func (g *gen20) mapping(depth, n int) *g20 {
 			v.head, v.line, v.foot = "", "", ""
 		}
 		for _, k := range m.keys {
-			if strings.ContainsAny(k, ",{}[]#!~") {
+			if strings.ContainsAny(k, ",{}[]#!~?") {
 				flowOK = false
 			}
 		}
@@ -510,7 +523,7 @@ func (g *gen20) workload(kind, api string) *g20 {
 	d := &g20{kind: 1}
 	spec := &g20{kind: 1}
 	if r.Chance(60) {
-		spec.put("replicas", g.decorate(sc20(r.Pick([]string{"1", "3", "\"3\"", "0"}))))
+		spec.put("replicas", g.decorate(sc20(r.Pick([]string{"1", "3", "\"3\"", "0", "2", "\"2\"", "1", "3", "3", "true"}))))
 	}
 	if r.Chance(40) {
 		sel := &g20{kind: 1}
@@ -590,6 +603,7 @@ func (g *gen20) doc() *g20 {
 	r := g.r
 	g.anchors, g.nAnchor = nil, 0
 	g.comments = []int{0, 0, 8, 20, 40}[r.Intn(5)]
+	g.complexKeys = r.Chance(4)
 	var kind, api string
 	shape := r.Intn(10)
 	var d *g20
